@@ -23,7 +23,14 @@ static void *cb_deq_int(const uscxml_ctx *c) { return next_bit() ? &ev : 0; }
 static void *cb_deq_ext(const uscxml_ctx *c) { return next_bit() ? &ev : 0; }
 static int cb_is_matched(const uscxml_ctx *c, const uscxml_transition *t, const void *e) { return next_bit(); }
 static int cb_is_true(const uscxml_ctx *c, const char *e) { return next_bit(); }
-static int cb_done(const uscxml_ctx *c, const uscxml_state *s, const uscxml_elem_donedata *d) { return 0; }
+static unsigned char done_set[USCXML_MAX_NR_STATES_BYTES + 8];
+static int done_bad;
+static int cb_done(const uscxml_ctx *c, const uscxml_state *s, const uscxml_elem_donedata *d) {
+  long idx = s - &USCXML_MACHINE.states[0];
+  if (idx < 0 || idx >= D_N) { done_bad = 1; return 0; }
+  done_set[idx >> 3] |= (unsigned char)(1u << (idx & 7));
+  return 0;
+}
 static int cb_log(const uscxml_ctx *c, const char *l, const char *e) { return 0; }
 static int cb_raise(const uscxml_ctx *c, const char *e) { return 0; }
 static int cb_send(const uscxml_ctx *c, const uscxml_elem_send *s) { return 0; }
@@ -53,6 +60,38 @@ static void show(const char *what, const unsigned char *s) {
 }
 static int skiphist;
 static int ok_state(const uscxml_ctx *c) { return legal_config(c->config) && (skiphist || hist_ok(c->history)); }
+/* the postconditions of engines/genc/harness_doc.c that go beyond legality, evaluated natively; returns NULL or a reason */
+static const char *post_clauses(const uscxml_ctx *pre, const uscxml_ctx *c, int r, int pre_ok) {
+  if (done_bad) return "raise_done_event received a pointer outside the state table";
+  if (!(pre->flags & USCXML_CTX_FINISHED) && (c->flags & USCXML_CTX_FINISHED))
+    for (int i = 0; i < D_N; i++) if (sp_bit(c->invocations, i)) return "a finished machine has an invocation left running";
+  if ((c->flags & USCXML_CTX_TOP_LEVEL_FINAL) && !(pre->flags & USCXML_CTX_TOP_LEVEL_FINAL) && r == USCXML_ERR_OK) {
+    int top = 0;
+    for (int i = 1; i < D_N; i++) if (d_kind[i] == K_FINAL && d_parent[i] == 0 && sp_bit(c->config, i)) top = 1;
+    if (!top) return "TOP_LEVEL_FINAL set without an active final child of <scxml>";
+  }
+  if (!pre_ok || !(r == USCXML_ERR_OK || r == USCXML_ERR_IDLE || r == USCXML_ERR_DONE)) return 0;
+  if (!skiphist)
+    for (int hh = 1; hh < D_N; hh++) {
+      if (!sp_is_history(hh)) continue;
+      int p = d_parent[hh], same = 1, recorded = 1;
+      for (int j = 1; j < D_N; j++) {
+        int in_region = sp_proper(j) && (d_kind[hh] == K_HSHALLOW ? sp_child(j, p) : sp_desc(j, p));
+        if (!in_region) continue;
+        if (sp_bit(c->history, j) != sp_bit(pre->history, j)) same = 0;
+        if (sp_bit(c->history, j) != sp_bit(pre->config, j)) recorded = 0;
+      }
+      if (!(same || (sp_bit(pre->config, p) && recorded))) return "the record of a history changed although its parent was not active, or to something else than what was active below the parent";
+    }
+  if (r == USCXML_ERR_OK && legal_config(c->config))
+    for (int f = 1; f < D_N; f++) {
+      if (d_kind[f] != K_FINAL || !sp_bit(c->config, f) || sp_bit(pre->config, f)) continue;
+      int p = d_parent[f];
+      if (p == 0) { if (!(c->flags & USCXML_CTX_TOP_LEVEL_FINAL)) return "final child of <scxml> entered without TOP_LEVEL_FINAL"; continue; }
+      if (!sp_bit(done_set, p)) return "done.state.<parent> not raised for an entered final state";
+    }
+  return 0;
+}
 
 int main(int argc, char **argv) {
   if (argc >= 6 && !strcmp(argv[1], "pre")) {
@@ -60,12 +99,15 @@ int main(int argc, char **argv) {
     pre.flags = (unsigned char)atoi(argv[2]);
     unhex(argv[3], pre.config, USCXML_MAX_NR_STATES_BYTES);
     unhex(argv[4], pre.history, USCXML_MAX_NR_STATES_BYTES);
-    nbits = atoi(argv[5]); skiphist = argc > 6;
+    nbits = atoi(argv[5]); skiphist = argc > 6 && !strcmp(argv[6], "skiphist");
+    if (argc > 7 || (argc > 6 && strcmp(argv[6], "skiphist"))) unhex(argv[argc - 1], pre.invocations, USCXML_MAX_NR_STATES_BYTES);
     int pre_ok = (pre.flags == 0) || ((pre.flags & USCXML_CTX_INITIALIZED) && ok_state(&pre));
     printf("pre-state flags=%d ", pre.flags); show("config", pre.config); printf(" "); show("history", pre.history); printf(" legal=%d\n", pre_ok);
     for (answers = 0; answers < (1ULL << nbits); answers++) {
-      uscxml_ctx c = pre; apos = 0;
+      uscxml_ctx c = pre; apos = 0; done_bad = 0; memset(done_set, 0, sizeof done_set);
       int r = uscxml_step(&c);
+      const char *why = post_clauses(&pre, &c, r, pre_ok);
+      if (why) { printf("REPRODUCED answers=0x%llx ret=%d: %s; ", answers, r, why); show("config", c.config); printf(" "); show("history", c.history); printf("\n"); return 1; }
       if ((r == USCXML_ERR_OK || r == USCXML_ERR_IDLE || r == USCXML_ERR_DONE) && pre_ok && !(c.flags & USCXML_CTX_FINISHED) && !ok_state(&c)) {
         printf("REPRODUCED answers=0x%llx ret=%d ", answers, r); show("config", c.config); printf(" "); show("history", c.history); printf(" is not a legal configuration / consistent history\n");
         return 1;
